@@ -204,6 +204,8 @@ class MultiTerm(qcore.Query):
         from whoosh.query import Or
 
         fieldname = self.field()
+        if fieldname not in searcher.schema:
+            return matching.NullMatcher()
         constantscore = self.constantscore
 
         reader = searcher.reader()
